@@ -111,7 +111,7 @@ def run(check):
                   "of types one crate defines and another imports (use, grouped use, nested use, glob, qualified paths), the rest foreign names, in "
                   "folder and single-file mode, six languages, >= 12 fresh processes plus thread counts, arrival orders and the same tables "
                   "written in another key order: byte-identical and byte-exact against the model; import mixes, overlapping source "
-                  "directories, generic parameter names; the stored witness of the open finding "
+                  "directories, generic parameter names; the same items in 2-4 small source files and in a file of exactly N bytes, N just below / at / just above 2^16, 2^20, 2^22 (thorough: 2^24), filled up with comments, blank lines, un-annotated items, doc comments, a string literal (single-file mode): same exit status and bytes; the stored witness of the open finding "
                   "duplicate-type-names-arrival-order; single-file destinations that already hold a longer / equally long / shorter / earlier "
                   "output; folder-mode runs (six languages, Swift with a unit type so that Codable.swift is written, 2-3 settings of the "
                   "language's typeshare.toml section per workspace) into folders that already hold the same run's output, another setting's "
@@ -203,6 +203,8 @@ def run(check):
         generic_names_part(check)
     if not check.has_failing():
         layout_part(check)
+    if not check.has_failing():
+        file_size_split_part(check)
     if not check.has_failing():
         # "a function of sources, configuration and options only": also not of what an earlier run left at the destination
         v_now = "#[typeshare]\npub struct Settings { pub a: u8 }\n\n#[typeshare]\npub enum Mode { Fast, Slow }\n"
@@ -828,6 +830,239 @@ def layout_part(check):
                             case={"lang": lang, "sources": texts, "directories": dirs, "layout": a},
                             impl={a: outs[a][1], "flat": outs["flat"][1]}, failing_input=True)
             return
+
+
+# ------------------------------------------------------------------ the size in bytes of the source files
+PAD_KINDS = ["line-comments", "blank-lines", "block-comment", "plain-items", "doc-comments", "string-const", "non-ascii-comments"]
+PAD_PLACEMENTS = ["after", "before", "between", "spread"]
+PAD_WORDS = "generated by the build do not edit lorem ipsum dolor sit amet field record table column offset length checksum".split()
+
+
+def pad_chunk(prng, kind, want, ctr):
+    """at most `want` (>= 200) bytes of Rust text that declares nothing typeshare looks at: comments, blank lines, items without
+    the annotation, doc comments on such items, a long string literal.  `ctr` numbers the items so that no name repeats in a file"""
+    def lines_upto(make, budget):
+        out, used = [], 0
+        while True:
+            ln = make()
+            b = len(ln.encode("utf-8"))
+            if used + b > budget:
+                return "".join(out)
+            out.append(ln)
+            used += b
+    words = lambda k: " ".join(prng.choice(PAD_WORDS) for _ in range(k))
+    ctr[0] += 1
+    n = ctr[0]
+    if kind == "line-comments":
+        return lines_upto(lambda: "// pad %s\n" % words(prng.randint(1, 14)), want)
+    if kind == "blank-lines":
+        return lines_upto(lambda: prng.choice(["\n", "\n", "    \n", "\t\n", "\r\n"]), want)
+    if kind == "block-comment":
+        return "/*\n" + lines_upto(lambda: " * %s\n" % words(prng.randint(1, 14)), want - 8) + " */\n"
+    if kind == "non-ascii-comments":
+        return lines_upto(lambda: "// Größe %s — 表 %s\n" % (words(2), "é" * prng.randint(0, 30)), want)
+    if kind == "doc-comments":
+        if n % 2:
+            return lines_upto(lambda: "/// %s\n" % words(prng.randint(1, 14)), want - 40) + "pub struct PadDoc%d;\n" % n
+        return "/**\n" + lines_upto(lambda: " * %s\n" % words(prng.randint(1, 14)), want - 48) + " */\npub struct PadDoc%d;\n" % n
+    if kind == "string-const":
+        head, tail = "pub const PAD_TEXT_%d: &str = \"" % n, "\";\n"
+        return head + "a" * (want - len(head) - len(tail)) + tail
+    if kind == "plain-items":
+        k = [0]
+
+        def item():
+            k[0] += 1
+            i = "%d_%d" % (n, k[0])
+            return prng.choice(["#[derive(Debug, Clone)]\npub struct Pad%s { pub a: u32, pub b: Vec<String>, pub c: Option<bool> }\n" % i,
+                                "pub fn pad_%s(x: u32) -> u32 { x.wrapping_mul(%d) + 1 }\n" % (i, k[0]),
+                                "pub enum PadE%s { First, Second(u8), Third { x: i64 } }\n" % i,
+                                "pub type PadT%s = std::collections::HashMap<String, Vec<u8>>;\n" % i,
+                                "pub static PAD_S%s: [u8; 4] = [1, 2, 3, %d];\n" % (i, k[0] % 200)])
+        return lines_upto(item, want)
+    raise ValueError(kind)
+
+
+def pad_exact(prng, nbytes, kinds, ctr):
+    """exactly `nbytes` bytes (UTF-8) of padding drawn from `kinds`"""
+    out, left = [], nbytes
+    while left > 400:
+        kind = prng.choice(kinds)
+        want = min(left - 200, prng.choice([300, 3000, 40000, 400000]))
+        if kind == "plain-items":
+            want = min(want, 40000)          # the only kind that costs parse time
+        s = pad_chunk(prng, kind, want, ctr)
+        b = len(s.encode("utf-8"))
+        assert b <= want, (kind, want, b)
+        if b == 0:
+            break
+        out.append(s)
+        left -= b
+    out.append("//" + "." * (left - 3) + "\n" if left >= 3 else "\n" * left)
+    return "".join(out)
+
+
+def sized_source(item_texts, size, pad_seed, kinds, placement):
+    """the items `item_texts` (in this order) in one source file of exactly `size` bytes: padding of the given kinds (a function of
+    `pad_seed` alone) before / after / in one gap between / spread over all gaps around the items"""
+    import random
+    prng = random.Random(pad_seed)
+    total = size - sum(len(t.encode("utf-8")) for t in item_texts)
+    assert total >= 0, "the items alone are larger than the file asked for"
+    k = len(item_texts) + 1
+    slots = [0] * k
+    if placement == "after":
+        slots[-1] = total
+    elif placement == "before":
+        slots[0] = total
+    elif placement == "between":
+        slots[prng.randrange(1, k - 1) if k > 2 else 0] = total
+    else:
+        cuts = sorted(prng.randint(0, total) for _ in range(k - 1))
+        slots = [b - a for a, b in zip([0] + cuts, cuts + [total])]
+    ctr = [0]
+    parts = []
+    for j, n in enumerate(slots):
+        parts.append(pad_exact(prng, n, kinds, ctr))
+        if j < len(item_texts):
+            parts.append(item_texts[j])
+    text = "".join(parts)
+    assert len(text.encode("utf-8")) == size
+    return text
+
+
+def file_size_split_part(check):
+    """the size in bytes of the source files as a dimension of "how the same items are split across ordinary source files" (single-file
+    mode).  The same annotated items are laid out twice: in 2-4 small files (a few hundred bytes each), and in files brought to an exact
+    size just below / at / just above 64 KiB, 1 MiB and 4 MiB (thorough: four to six sizes around each, one around 16 MiB) by text that declares nothing -
+    line / block / non-ASCII comments, blank lines, items without the annotation, long doc comments on such items, a long string
+    literal - before, after, between or spread around the items.  Two big layouts: `joined` (all items in one file of that size, one
+    file possibly left apart) and `in-place` (the same files, one of them padded to that size).  Two or three languages per size.
+    Demanded: the big layout gives the same exit status and byte-identical output as the small one (type names are disjoint and there
+    are no consts, so the order is fixed by the sort after the merge); the common output equals the Lean pipeline model's text."""
+    rng = check.rng
+    KiB, MiB = 1 << 10, 1 << 20
+    marks = [64 * KiB, MiB, 4 * MiB] + ([16 * MiB] if check.thorough else [])
+    pool = TYPE_WORDS + [w + "Two" for w in TYPE_WORDS]
+    case_no = 0
+    for mark in marks:
+        near = lambda: rng.randint(2, 4096)
+        if check.thorough:
+            sizes = ([mark - near(), mark - 1, mark, mark + 1, mark + near(), mark + mark // 4] if mark < 4 * MiB else
+                     [mark - 1, mark, mark + 1, mark + near()] if mark < 16 * MiB else [rng.choice([mark, mark + 1, mark + near()])])
+        else:
+            sizes = [rng.choice([mark - near(), mark - 1, mark]), rng.choice([mark + 1, mark + near(), mark + mark // 4])]
+        for size in sizes:
+            case_no += 1
+            nlangs = 3 if check.thorough and mark < 16 * MiB else 2
+            langs = [LANGS[(case_no * 2 + j * 3) % 6] for j in range(2)] if nlangs == 2 else [LANGS[(case_no + 2 * j) % 6] for j in range(3)]
+            nfiles = rng.randint(2, 4)
+            words = rng.sample(pool, 3 * nfiles)
+            g = Gen(rng, p_serialized_as=0.0, p_decorators=0.05, p_cfg=0.0, p_const=0.0, p_mod=0.0, p_noise=0.0)
+            files = []
+            for i in range(nfiles):
+                mine = words[3 * i:3 * i + 3]
+                others = [w for w in words if w not in mine]
+                f = g.file(names=rng.sample(mine, rng.randint(1, 3)), extern_types=rng.sample(others, 2))
+                files.append(dict(rel="src/%sf%d.rs" % (rng.choice(["", "sub/", "a/b/"]), i), crate="", file=f))
+            item_texts = lambda fs: [render_item(it) + "\n" for f in fs for it in f["file"]["items"]]
+            layout = ["joined", "in-place"][case_no % 2] if check.thorough or mark < 4 * MiB else rng.choice(["joined", "in-place"])
+            kinds = rng.sample(PAD_KINDS, rng.randint(1, 4))
+            placement = rng.choice(PAD_PLACEMENTS)
+            pad_seed = rng.randint(0, 10**6)
+            if layout == "joined":
+                apart = files[-1:] if rng.random() < 0.5 else []
+                inside = [f for f in files if f not in apart]
+                big_name = rng.choice(["src/all.rs", "src/generated.rs", "src/aaa.rs", "src/zz/mod.rs"])
+                big_files = [(big_name, inside)] + [(f["rel"], [f]) for f in apart]
+            else:
+                j = rng.randrange(nfiles)
+                big_name = files[j]["rel"]
+                big_files = [(f["rel"], [f]) for f in files]
+            recipe = {"size_in_bytes": size, "file": big_name, "pad_seed": pad_seed, "kinds": kinds, "placement": placement,
+                      "items_in_it": None, "rebuild": "tools/c06.py: sized_source(items_in_it, size_in_bytes, pad_seed, kinds, placement)"}
+
+            def big_text(rel, fs, plain=False):
+                if rel != big_name:
+                    return render_file(fs[0]["file"])
+                its = item_texts(fs)
+                recipe["items_in_it"] = its
+                if plain:
+                    return "".join(its) + "\n" * (size - sum(len(t.encode("utf-8")) for t in its))
+                return sized_source(its, size, pad_seed, kinds, placement)
+            with Scratch() as sc:
+                for f in files:
+                    sc.write("small/" + f["rel"], render_file(f["file"]))
+                for rel, fs in big_files:
+                    sc.write("big/" + rel, big_text(rel, fs))
+                assert os.path.getsize(sc.path("big/" + big_name)) == size
+                assert all(os.path.getsize(sc.path("small/" + f["rel"])) < 32 * KiB for f in files)
+
+                def gen_of(root, lang):
+                    out = sc.path("out_%s.%s" % (root, EXT[lang]))
+                    if os.path.exists(out):
+                        os.remove(out)
+                    r = run_cli(["--lang", lang, "-o", out] + lang_args(lang) + [sc.path(root)], cwd=sc.dir, timeout=600)
+                    return (r["rc"], open(out, encoding="utf-8", errors="replace").read() if os.path.exists(out) else None), r
+                for lang in langs:
+                    small, rs = gen_of("small", lang)
+                    big, rb = gen_of("big", lang)
+                    ok_run = small[0] == 0
+                    check.saw(("file-size-split", case_no, lang), nontrivial=ok_run)
+                    check.count("file-size-split: %s 2^%d bytes" % (
+                        "at" if size == mark else "just below" if size < mark else "just above" if size - mark <= 4096 else "a quarter above",
+                        mark.bit_length() - 1))
+                    check.count("file-size-split-%s" % lang)
+                    check.count("file-size-split layout " + layout)
+                    check.count("file-size-split placement " + placement)
+                    for kd in kinds:
+                        check.count("file-size-split padding " + kd)
+                    if not ok_run:
+                        check.count("file-size-split: the small layout is rejected")
+                    if small != big:
+                        # the same with the plainest padding there is: the items, then newline characters up to the size
+                        for rel, fs in big_files:
+                            sc.write("plain/" + rel, big_text(rel, fs, plain=True))
+                        plain, _ = gen_of("plain", lang)
+                        nrec = lambda o: "no output file" if o[1] is None else "%d lines" % len(o[1].splitlines())
+                        check.violation(
+                            "%s, single-file mode: the same %d annotated items give different output when they are %s a source file of "
+                            "%d bytes (%s 2^%d; padded with %s %s) than when they are spread over %d files of at most %d bytes: "
+                            "exit %s and %s from the big layout, exit %s and %s from the small one (%s); %s" % (
+                                lang, len(item_texts(files)), "joined in" if layout == "joined" else "left in their files, one of which is",
+                                size, "exactly" if size == mark else "%d below" % (mark - size) if size < mark else "%d above" % (size - mark),
+                                mark.bit_length() - 1, " + ".join(kinds),
+                                {"after": "after the items", "before": "before the items", "between": "in one gap between the items",
+                                 "spread": "spread around the items"}[placement], nfiles,
+                                max(os.path.getsize(sc.path("small/" + f["rel"])) for f in files),
+                                big[0], nrec(big), small[0], nrec(small),
+                                run_diff(small[1] or "", big[1] or "") if small[1] != big[1] else "same bytes",
+                                "the items followed by newline characters up to that size " +
+                                ("show the same difference" if plain != small else "do not show it")),
+                            case={"lang": lang, "args": ["--lang", lang, "-o", "out." + EXT[lang]] + lang_args(lang) + ["<layout directory>"],
+                                  "small_layout": {f["rel"]: render_file(f["file"]) for f in files},
+                                  "big_layout": {rel: (recipe if rel == big_name else render_file(fs[0]["file"])) for rel, fs in big_files},
+                                  "plainest_form": "%s = the strings of items_in_it, then newline characters up to %d bytes: %s" % (
+                                      big_name, size, "differs from the small layout too" if plain != small else "same output as the small layout"),
+                                  "stderr_big": rb["err"][-600:]},
+                            impl={"small": small[1], "big": big[1]}, failing_input=True)
+                        return
+                    # the tie: the model's pipeline on the same items
+                    if lang in MODELLED and ok_run:
+                        cfg = {"package": "proto" if lang == "go" else "com.example", "version_header": True, "type_mappings": {}}
+                        jobs = [{"crate": "", "file_name": "x", "path": sc.path("small/" + f["rel"]), "file": f["file"]} for f in files]
+                        names = set().union(*[l2.names_of(f["file"]) for f in files])
+                        mreq, _, _ = l2.requests(lang, cfg, jobs, g, multi_file=False)
+                        ma = model([mreq], names=names if lang == "python" else None)[0]
+                        if "ok" in ma and sorted(ma["ok"].values()) != [big[1]] and l2.norm(ma) != {"err": "format"}:
+                            check.violation("the binary's %s output for items in a source file of %d bytes differs from the pipeline model's" % (lang, size),
+                                            case={"lang": lang, "small_layout": {f["rel"]: render_file(f["file"]) for f in files}, "big_file": recipe},
+                                            impl=big[1], model=ma["ok"], failing_input=False,
+                                            broken="correspondence L3 collect/reconcile/generate (theorems TsV.C06.*)")
+                            return
+            if len(check.samples) < 9:
+                check.sample({"file_size_split": {"size": size, "layout": layout, "kinds": kinds, "placement": placement, "langs": langs,
+                                                  "small_files": [f["rel"] for f in files], "big_file": big_name}})
 
 
 def generic_names_part(check):
